@@ -798,6 +798,9 @@ func (r *Run) callBuiltin(caller *frame, pos token.Pos, fn *ssa.Builtin, args []
 			}
 			return mkBV(64, uint64(len((*x).(Array))))
 		case Slice:
+			if x.SymLen != nil {
+				return x.SymLen
+			}
 			return mkBV(64, uint64(len(x.S)))
 		case *MapObj:
 			if x == nil {
